@@ -201,6 +201,11 @@ func C10(c *core.Ctx) {
 			}
 			capdu = iso7816.NewCApdu(h[0], h[1], h[2], h[3], in, ne)
 			respSw = statuses[rnd.Intn(len(statuses))]
+			if rnd.Intn(3) == 0 {
+				// "arbitrary protected statuses": any status word ISO 7816-4 knows - '61'..'6F' and '90'..'9F' (proprietary
+				// '91xx'..'9Fxx' included) with any second octet
+				respSw = uint16([]int{0x61, 0x62, 0x63, 0x64, 0x65, 0x66, 0x67, 0x68, 0x69, 0x6A, 0x6B, 0x6C, 0x6D, 0x6E, 0x6F, 0x91, 0x92, 0x98, 0x9F}[rnd.Intn(19)])<<8 | uint16(rnd.Intn(256))
+			}
 			respData = nil
 			if ne > 0 && respSw == 0x9000 {
 				respData = make([]byte, 1+rnd.Intn(min(ne, 200)))
